@@ -64,6 +64,7 @@ type CParam struct {
 }
 
 type Clause struct {
+	Split CExpr  // case split for a leading forall: proved separately under Split and under !Split
 	Label string // behaviour label, "" = safety
 	Name  string // optional explicit name
 	E     CExpr
@@ -122,6 +123,7 @@ type FuncContract struct {
 }
 
 type SpecFunc struct {
+	Heap      bool // reads the heap: the heap components become implicit parameters
 	Line      int
 	Name      string
 	Params    []CParam
@@ -133,6 +135,7 @@ type SpecFunc struct {
 }
 
 type Lemma struct {
+	Heap      bool // reads the heap (the heap components are implicit parameters)
 	Name      string
 	Params    []CParam
 	Requires  []Clause
@@ -204,6 +207,13 @@ func lex(src string, line0 int) ([]tok, error) {
 			st := lx.pos
 			for lx.pos < len(lx.src) && (isIdStart(lx.src[lx.pos]) || isDig(lx.src[lx.pos]) || lx.src[lx.pos] == '$') {
 				lx.pos++
+			}
+			// name#k selects the k-th declaration of a shadowed local
+			if lx.pos+1 < len(lx.src) && lx.src[lx.pos] == '#' && isDig(lx.src[lx.pos+1]) {
+				lx.pos++
+				for lx.pos < len(lx.src) && isDig(lx.src[lx.pos]) {
+					lx.pos++
+				}
 			}
 			lx.toks = append(lx.toks, tok{"id", lx.src[st:lx.pos], lx.line})
 		case isDig(c):
@@ -405,6 +415,12 @@ func (p *parser) decl(cf *ContractFile) {
 		sf := &SpecFunc{Name: p.ident(), Line: t.line}
 		sf.Params = p.params()
 		sf.Result = p.typeText()
+		if p.acceptId("reads") {
+			if !p.acceptId("heap") {
+				p.fail("expected 'reads heap'")
+			}
+			sf.Heap = true
+		}
 		for p.isId("decreases") || p.isId("axiom") {
 			if p.acceptId("decreases") {
 				sf.Decreases = p.expr()
@@ -432,6 +448,12 @@ func (p *parser) decl(cf *ContractFile) {
 		}
 		lm.Name = p.ident()
 		lm.Params = p.params()
+		if p.acceptId("reads") {
+			if !p.acceptId("heap") {
+				p.fail("expected 'reads heap'")
+			}
+			lm.Heap = true
+		}
 		for {
 			if p.acceptId("requires") {
 				lm.Requires = append(lm.Requires, p.clause())
@@ -679,6 +701,9 @@ func (p *parser) clause() Clause {
 	st := p.p
 	c.E = p.expr()
 	c.Src = p.srcOf(st, p.p)
+	if p.acceptId("split") {
+		c.Split = p.expr()
+	}
 	if p.acceptId("by") {
 		c.By = p.block()
 	}
